@@ -14,11 +14,15 @@ import (
 
 func init() {
 	core.Register(&core.PropDef{
-		ID:        "C07",
-		Run:       runC07,
-		Technique: "runtime dispatch-table oracle over all 256x32x2 header combinations, foreign-type rejection matrix over all ordered type pairs, self-dispatch of Marshal output",
+		ID:         "C07",
+		Run:        runC07,
+		RunRace:    func(c *core.Ctx) { coldSection(c, c.N(32, 800), []string{"datagram", "compound", "own-decoder"}) },
+		RaceShards: 4,
+		RaceProcs:  4,
+		Technique:  "runtime dispatch-table oracle over all 256x32x2 header combinations, foreign-type rejection matrix over all ordered type pairs, self-dispatch of Marshal output",
 		Rule: "dispatch: all 256 packet types x 32 count/FMT values x P in {0,1}, registered combinations with reference-valid bodies consistent with the count, all others with 8 body shapes (0..6 words, zero / ones / random) expected back as RawPacket verbatim; " +
 			"foreign: every ordered pair (T,U), T one of the 14 registered decoders, U one of 16 classes (13 other registered types, the library-dialect SLI, raw frames with unregistered FMT under 205/206, raw frames with unregistered PT) x generated well-formed U encodings; " +
+			"cold start: child processes whose first decodes are made by 2..32 goroutines at once, compared with a sequential child, with and without the race detector; " +
 			"non-trivial = a frame of at least 4 octets was dispatched or handed to a foreign decoder; distinct by digest of (aspect, decoder, octets)",
 		Assumptions: []string{
 			"for registered combinations with the padding bit set only the dynamic type of an accepted result is judged (generic padding support is not claimed by any property)",
@@ -77,6 +81,7 @@ func registeredBody(r *core.Rand, pt, count uint8) ([]byte, gen.Kind) {
 }
 
 func runC07(c *core.Ctx) {
+	coldSection(c, c.N(32, 800), []string{"datagram", "compound", "own-decoder"})
 	// (1) dispatch: exhaustive over (pt, count, P); several bodies each
 	c.Exhaustive("dispatch: all 256 PT x 32 count/FMT x 2 padding-bit header combinations", 256*32*2)
 	reps := c.N(4, 200)
